@@ -45,6 +45,9 @@ class NS(object):
         object.__setattr__(self, '_extra', extra or {})
     def __getattr__(self, name):
         if name in self._extra: return self._extra[name]
+        if name == 'stdout' and name not in self._frame:
+            c_ = self._st.cells.get('stdout')
+            return c_.z if c_ is not None else z3.Const('stdout0', Doc)        # (never written on this path: still what it was at entry)
         if name not in self._frame:
             raise AttributeError('contract refers to unknown variable %r (have %s)' % (name, sorted(self._frame)))
         d = self._ex.deref(self._frame[name], self._st)
@@ -685,7 +688,11 @@ class ExprMixin(object):
                 if (full, name) == ('os', 'linesep'):
                     self.reg.assume('A4: os.linesep is "\\n" (POSIX)')
                     return [(PyStr('\n'), st)]
-                if full == 'sys' and name == 'stdout': return [(NONE, st)]
+                if full == 'sys' and name == 'stdout':
+                    # the process's standard output: one document per state (contracts read it as `v.stdout`); functions whose contracts do not
+                    # speak about it may print freely -- nothing is known about it at their call sites
+                    if 'stdout' not in st.cells: st.cells['stdout'] = DocObj(z3.Const('stdout0', Doc))
+                    return [(Ref('stdout'), st)]
                 return [(ModuleV(ext=(full, name)), st)]
             x = r.module.resolve(name)
             if x is None: raise Unsupported('module attribute %s' % name)
@@ -2611,6 +2618,9 @@ class CallMixin(object):
                     st.pc.append(field(tdecl.name, fname, fty.sort())(o.z) == field(d.cls, fname, fty.sort())(d.z))
                 else: raise Unsupported('view field %s.%s of incompatible type' % (tdecl.name, fname))
             return o
+        if k == 'Obj' and isinstance(d, Obj) and d.cls != ty.args[0] and getattr(self.reg.classes.get(d.cls), 'proxy_of', None) and self.reg.classes[d.cls].proxy_of[0] == ty.args[0]:
+            # a transparent proxy (wrapt.ObjectProxy, A6) passed where the wrapped class is expected: attributes the proxy does not define are the wrapped object's
+            return Obj(self.reg.classes[d.cls].proxy_of[1](d.z), ty.args[0])
         if k == 'Obj' and isinstance(d, Obj) and d.cls != ty.args[0]:
             base = ty.args[0]
             chain, c = [], d.cls
